@@ -31,6 +31,7 @@ inductive St where
   | assign (lhs rhs : Ex)
   | define (x : String) (rhs : Ex)
   | define2 (x y : String) (rhs : Ex)
+  | assign4 (a b c d : String) (rhs : Ex)        -- `a, b, c, d = f(…)` (`_` = discarded)
   | opAssign (op : String) (lhs rhs : Ex)
   | varDecl (x ty : String)
   | ite (c : Ex) (t e : St)
@@ -64,6 +65,7 @@ def St.hasUnknown : St → Bool
   | .assign l r => l.hasUnknown || r.hasUnknown
   | .define _ r => r.hasUnknown
   | .define2 _ _ r => r.hasUnknown
+  | .assign4 _ _ _ _ r => r.hasUnknown
   | .opAssign _ l r => l.hasUnknown || r.hasUnknown
   | .ite c t e => c.hasUnknown || t.hasUnknown || e.hasUnknown
   | .forCond c b => c.hasUnknown || b.hasUnknown
